@@ -633,7 +633,12 @@ get_prefix_trait(has_traits_object *obj, PyObject *name, int is_set)
 
     if (trait != NULL) {
         assert(obj->ctrait_dict != NULL);
-        PyDict_SetItem((PyObject *)obj->ctrait_dict, name, trait);
+        if (PyDict_SetItem((PyObject *)obj->ctrait_dict, name, trait) < 0) {
+            /* For example a name (an instance of a str subclass) that
+               cannot be hashed. */
+            Py_DECREF(trait);
+            return NULL;
+        }
         Py_DECREF(trait);
 
         if (has_traits_setattro(obj, trait_added, name) < 0) {
@@ -641,8 +646,17 @@ get_prefix_trait(has_traits_object *obj, PyObject *name, int is_set)
         }
 
         trait = get_trait(obj, name, 0);
+        if (trait == NULL) {
+            return NULL;
+        }
         /* We return a borrowed reference, to match dict_getitem. */
         Py_DECREF(trait);
+        if (!PyTrait_CheckExact(trait)) {
+            /* The entry stored above is gone again: get_trait answered
+               None, which must not be handed out as a trait. */
+            unknown_attribute_error(obj, name);
+            return NULL;
+        }
     }
 
     return (trait_object *)trait;
